@@ -439,17 +439,18 @@ class Praj:
             top = float(es_k[0])                       # the first class edge of the code's grid: np.logspace(log10(klass_max), ...)[0]
             above = int(np.sum(P2 > max(kmaxs[k], top)))
             self.stats["P_above_klass_max"] += above
-            # 10**log10(klass_max) can be one ulp BELOW klass_max: a hysteresis with P_RAJ = klass_max (crack fully open over the
+            # 10**log10(klass_max) can be a few ulp BELOW klass_max: a hysteresis with P_RAJ = klass_max (crack fully open over the
             # whole range +-max|S|; seen only for loads of 4-6 R_m, where the point fails within the two recorded passes and the
             # class counts are not used) then lies above the grid and is counted in no class: finding praj-top-edge-rounding
             lost = int(np.sum((P2 > top) & (P2 <= kmaxs[k])))
             # (rounding of 10**log10(x): relative error up to about eps * ln(x) / 2 + eps, i.e. 8 ulp for x ~ 1e6 - the distance
             # depends on the last digits of klass_max, hence on the notch law's solver: 1 ulp with pylife b50f603, 8 ulp with the
-            # more accurate Seeger-Beste solver of tools/fixes/C06-seegerbeste-bisection-accuracy.diff)
+            # more accurate Seeger-Beste solver of /repo commit 8e3c607; the guard admits 4 * max(1, ln klass_max) ulp)
             if lost and kmaxs[k] - top <= 4 * max(1.0, math.log(max(kmaxs[k], 1.0))) * np.spacing(kmaxs[k]):
                 self.stats["lost_to_top_edge_rounding"] = self.stats.get("lost_to_top_edge_rounding", 0) + lost
                 pending = (f"point {k}: {lost} second-run hysteresis with P_RAJ = {float(np.max(P2))!r} <= P_RAJ_klass_max = {kmaxs[k]!r} is counted in no class: the first "
-                           f"class edge np.logspace(log10(klass_max), ...)[0] = {top!r} is one ulp below klass_max; {ctx}", "praj-top-edge-rounding")
+                           f"class edge np.logspace(log10(klass_max), ...)[0] = {top!r} is {(kmaxs[k] - top) / np.spacing(kmaxs[k]):.0f} ulp below klass_max (rounding of 10**log10(x); "
+                           f"up to 4 * max(1, ln klass_max) ulp are filed under this class); {ctx}", "praj-top-edge-rounding")
             else:
                 lost = 0
             counted = float(np.sum(np.asarray(dc._binned_h)[k]) + np.asarray(dc._n_not_in_bin).reshape(-1)[k])
